@@ -1102,6 +1102,7 @@ package main
 //@   requires offside-stack-non-empty: len(ps.offsideCol) >= 1
 //@   requires block-parser-keeps-the-token-stream: forall p ParseState :: {pBlock(p)} live(p) ==> live(pBlock(p).E0) && samebuf(pBlock(p).E0, p)
 //@   requires block-parser-keeps-the-offside-stack: forall p ParseState :: {pBlock(p)} pBlock(p).E0.offsideCol == p.offsideCol
+//@   requires block-parser-keeps-the-scope: forall p ParseState :: {pBlock(p)} pBlock(p).E0.scope == p.scope
 //@   panics may
 //@   ensures default-only-inside-offside: is(UnionMatchRules_UCaseWD, result.E1) ==> len(P.offsideCol) > 0 && P.tkz.col >= P.offsideCol[len(P.offsideCol) - 1] && is_default_mr(P)
 //@   ensures no-default-means-checked: is(UnionMatchRules_UCaseOnly, result.E1) && is(FType_FUnion, TT) ==> has_uniinfo(FType_FUnion_Value(TT)) && !(exists i int :: 0 <= i && i < len(uniinfo(FType_FUnion_Value(TT)).Cases) && (forall j int :: 0 <= j && j < len(US) ==> US[j].UnionPattern.CaseId != uniinfo(FType_FUnion_Value(TT)).Cases[i].Name))
@@ -1253,7 +1254,7 @@ package main
 //@   panics may
 //@   decreases rem(ps)
 //@   ensures grammar: Rfullname(ps, result.E0, result.E1)
-//@   ensures frame: result.E0.scope == ps.scope
+//@   ensures frame: result.E0.scope == ps.scope && result.E0.offsideCol == ps.offsideCol
 //@   ensures live: live(result.E0) && samebuf(result.E0, ps)
 //@   ensures progress: result.E0.tkz.current.begin > ps.tkz.current.begin
 
@@ -1267,6 +1268,7 @@ package main
 //@   decreases 8 * rem(ps) + 6
 //@   ensures grammar: Rtlist(ps, result.E0, result.E1)
 //@   ensures live: live(result.E0) && samebuf(result.E0, ps)
+//@   ensures frame: result.E0.scope == ps.scope && result.E0.offsideCol == ps.offsideCol
 //@   ensures progress: result.E0.tkz.current.begin > ps.tkz.current.begin
 
 //@ func mightParseSpecifiedTypeList
@@ -1279,6 +1281,7 @@ package main
 //@   decreases 8 * rem(ps) + 7
 //@   ensures grammar: Rtargs(ps, result.E0, result.E1)
 //@   ensures live: live(result.E0) && samebuf(result.E0, ps)
+//@   ensures frame: result.E0.scope == ps.scope && result.E0.offsideCol == ps.offsideCol
 //@   ensures mono: result.E0.tkz.current.begin >= ps.tkz.current.begin
 
 //@ func tdctxTVFAlloc
@@ -1297,6 +1300,7 @@ package main
 //@   decreases 8 * rem(ps) + 1
 //@   ensures grammar: Ratom(ps, result.E0, result.E1)
 //@   ensures live: live(result.E0) && samebuf(result.E0, ps)
+//@   ensures frame: result.E0.scope == ps.scope && result.E0.offsideCol == ps.offsideCol
 //@   ensures progress: result.E0.tkz.current.begin > ps.tkz.current.begin
 
 //@ func parseTermType
@@ -1309,6 +1313,7 @@ package main
 //@   decreases 8 * rem(ps) + 2
 //@   ensures grammar: Rterm(ps, result.E0, result.E1)
 //@   ensures live: live(result.E0) && samebuf(result.E0, ps)
+//@   ensures frame: result.E0.scope == ps.scope && result.E0.offsideCol == ps.offsideCol
 //@   ensures progress: result.E0.tkz.current.begin > ps.tkz.current.begin
 
 //@ func parseElemType
@@ -1321,11 +1326,13 @@ package main
 //@   decreases 8 * rem(ps) + 3
 //@   ensures grammar: Relem(ps, result.E0, result.E1)
 //@   ensures live: live(result.E0) && samebuf(result.E0, ps)
+//@   ensures frame: result.E0.scope == ps.scope && result.E0.offsideCol == ps.offsideCol
 //@   ensures progress: result.E0.tkz.current.begin > ps.tkz.current.begin
 //@   inline-call ParseList2
 //@   loop ParseList2/0:
 //@     invariant terms: Rterms(old(ps), ps, res) && len(res) >= 1
 //@     invariant live: live(ps) && samebuf(ps, old(ps)) && ps.tkz.current.begin > old(ps).tkz.current.begin
+//@     invariant frame: ps.scope == old(ps).scope && ps.offsideCol == old(ps).offsideCol
 //@     decreases rem(ps)
 
 //@ func parseTypeArrows
@@ -1338,6 +1345,7 @@ package main
 //@   decreases 8 * rem(ps) + 4
 //@   ensures grammar: Rarrows(ps, result.E0, result.E1)
 //@   ensures live: live(result.E0) && samebuf(result.E0, ps)
+//@   ensures frame: result.E0.scope == ps.scope && result.E0.offsideCol == ps.offsideCol
 //@   ensures progress: result.E0.tkz.current.begin > ps.tkz.current.begin
 //@   ensures nonempty: len(result.E1) >= 1
 
@@ -1350,6 +1358,7 @@ package main
 //@   decreases 8 * rem(ps) + 5
 //@   ensures grammar: Rtype(ps, result.E0, result.E1)
 //@   ensures live: live(result.E0) && samebuf(result.E0, ps)
+//@   ensures frame: result.E0.scope == ps.scope && result.E0.offsideCol == ps.offsideCol
 //@   ensures progress: result.E0.tkz.current.begin > ps.tkz.current.begin
 
 // ---------------------------------------------------------------------------------------------
@@ -1517,10 +1526,13 @@ package main
 //@   ensures body-starts-after-line-breaks: arg(pBlock, old(calls(pBlock))).tkz.current.ttype != New_TokenType_EOL
 
 //@ func parseStringVarRule
-//@   props C06
-//@   modifies maps
+//@   props C06 C07
+//@   modifies maps glob:vardefs
 //@   requires live: live(ps)
+//@   requires block-parser-keeps-the-scope: forall p ParseState :: {pBlock(p)} pBlock(p).E0.scope == p.scope
 //@   panics may
+//@   ensures C07 variable-in-a-child-scope: exists sc Scope :: {scparent(sc)} scparent(sc) == ps.scope && sc != ps.scope && glob(vardefs) == def_var(old(glob(vardefs)), sc, result.E1.VarName, mk_main_Var(result.E1.VarName, New_FType_FString)) && arg(pBlock, old(calls(pBlock))).scope == sc
+//@   ensures C07 scope-restored: result.E0.scope == ps.scope
 //@   ensures body-parsed-once: calls(pBlock) == old(calls(pBlock)) + 1
 //@   ensures body-starts-after-line-breaks: arg(pBlock, old(calls(pBlock))).tkz.current.ttype != New_TokenType_EOL
 
@@ -1538,9 +1550,14 @@ package main
 //@   note abstract: the case of a union by name, from the global union-info table
 
 //@ func parseUnionMatchRule
-//@   props C06 C09
-//@   modifies maps
+//@   props C06 C09 C07
+//@   modifies maps glob:vardefs
 //@   requires live: live(ps)
+//@   requires block-parser-keeps-the-scope: forall p ParseState :: {pBlock(p)} pBlock(p).E0.scope == p.scope
+//@   ensures C07 body-in-a-child-scope: scparent(arg(pBlock, old(calls(pBlock))).scope) == ps.scope && arg(pBlock, old(calls(pBlock))).scope != ps.scope
+//@   ensures C07 payload-variable-only-in-the-child-scope: (result.E1.UnionPattern.VarName == "" || result.E1.UnionPattern.VarName == "_") ==> glob(vardefs) == old(glob(vardefs))
+//@   ensures C07 payload-variable-in-the-child-scope: result.E1.UnionPattern.VarName != "" && result.E1.UnionPattern.VarName != "_" ==> exists v Var :: {def_var(old(glob(vardefs)), arg(pBlock, old(calls(pBlock))).scope, result.E1.UnionPattern.VarName, v)} v.Name == result.E1.UnionPattern.VarName && glob(vardefs) == def_var(old(glob(vardefs)), arg(pBlock, old(calls(pBlock))).scope, result.E1.UnionPattern.VarName, v)
+//@   ensures C07 scope-restored: result.E0.scope == ps.scope
 //@   requires block-parser-keeps-the-token-stream: forall p ParseState :: {pBlock(p)} live(p) ==> live(pBlock(p).E0) && samebuf(pBlock(p).E0, p)
 //@   requires block-parser-keeps-the-offside-stack: forall p ParseState :: {pBlock(p)} pBlock(p).E0.offsideCol == p.offsideCol
 //@   panics may
@@ -1552,16 +1569,19 @@ package main
 
 //@ func parseParams
 //@   trusted
-//@   modifies maps
+//@   modifies maps glob:vardefs
 //@   panics may
 //@   ensures live: live(ps) ==> live(result.E0) && samebuf(result.E0, ps)
+//@   ensures scope-kept: result.E0.scope == ps.scope && result.E0.offsideCol == ps.offsideCol
+//@   ensures defined-in-the-scope-given: glob(vardefs) == params_log(old(glob(vardefs)), ps.scope, result.E1)
 //@   note abstract: the parameter list of a let / fun (defines the parameters in the current scope)
 
 //@ func parseBlock
 //@   trusted
-//@   modifies maps
+//@   modifies maps glob:vardefs
 //@   panics may
 //@   ensures live: live(ps) ==> live(result.E0) && samebuf(result.E0, ps)
+//@   ensures scope-kept: result.E0.scope == ps.scope
 //@   note abstract: a block of statements (its offside discipline is the subject of the primitives' contracts)
 
 //@ func blockToExpr
@@ -1569,13 +1589,17 @@ package main
 //@   panics may
 
 //@ func parseLetFuncDef
-//@   props C06
-//@   modifies maps
+//@   props C06 C07
+//@   modifies maps glob:vardefs
 //@   ghost P ParseState          -- the state at which the body block is parsed
+//@   ghost L int                 -- the definition log right after the parameters
 //@   requires live: live(ps)
 //@   panics may
 //@   ensures body-starts-after-line-breaks: P.tkz.current.ttype != New_TokenType_EOL
+//@   ensures C07 parameters-and-body-in-a-child-scope: scparent(P.scope) == ps.scope && P.scope != ps.scope && L == params_log(old(glob(vardefs)), P.scope, result.E1.Params)
+//@   ensures C07 scope-restored: result.E0.scope == ps.scope
 //@   at before call parseBlock#0: P = _r0
+//@   at before call psCurIs#0: L = glob(vardefs)
 
 //@ func newIfElseCall
 //@   trusted
@@ -1603,8 +1627,9 @@ package main
 // not on the state the match started in
 //@ func parseUnionMatchRules
 //@   props C06 C09
-//@   modifies maps
+//@   modifies maps glob:vardefs
 //@   requires live: live(ps)
+//@   requires block-parser-keeps-the-scope: forall p ParseState :: {pBlock(p)} pBlock(p).E0.scope == p.scope
 //@   requires offside-stack-non-empty: len(ps.offsideCol) >= 1
 //@   requires block-parser-keeps-the-token-stream: forall p ParseState :: {pBlock(p)} live(p) ==> live(pBlock(p).E0) && samebuf(pBlock(p).E0, p)
 //@   requires block-parser-keeps-the-offside-stack: forall p ParseState :: {pBlock(p)} pBlock(p).E0.offsideCol == p.offsideCol
@@ -1640,6 +1665,7 @@ package main
 //@   panics may
 //@   ensures grammar: Rfield(ps, result.E0, result.E1)
 //@   ensures live: live(result.E0) && samebuf(result.E0, ps)
+//@   ensures frame: result.E0.scope == ps.scope && result.E0.offsideCol == ps.offsideCol
 //@   ensures progress: result.E0.tkz.current.begin > ps.tkz.current.begin
 
 //@ func parseFieldDefs
@@ -1651,6 +1677,7 @@ package main
 //@   ensures grammar: Rfields(ps, result.E0, result.E1)
 //@   ensures ends-at-brace: result.E0.tkz.current.ttype == New_TokenType_RBRACE
 //@   ensures live: live(result.E0) && samebuf(result.E0, ps)
+//@   ensures frame: result.E0.scope == ps.scope && result.E0.offsideCol == ps.offsideCol
 
 // ---------------------------------------------------------------------------------------------
 // C03: what a type definition registers (abstract registration logs, /verif/specs/decl.spec).
@@ -1728,3 +1755,19 @@ package main
 //@   panics may
 //@   ensures record: is(DefStmt_DRecordDef, df) ==> glob(typeregs) == reg_rec(old(glob(typeregs)), sc, DefStmt_DRecordDef_Value(df).Name) && glob(vardefs) == old(glob(vardefs))
 //@   ensures union: is(DefStmt_DUnionDef, df) ==> glob(typeregs) == reg_type(old(glob(typeregs)), sc, DefStmt_DUnionDef_Value(df).Name) && glob(vardefs) == ctor_log(old(glob(vardefs)), sc, DefStmt_DUnionDef_Value(df), len(DefStmt_DUnionDef_Value(df).Cases))
+
+// ---------------------------------------------------------------------------------------------
+// C07, scope discipline of binders: what a construct binds is defined in a fresh child of the scope it
+// was given, and the scope is restored afterwards - nothing leaks into the enclosing (at top level: the
+// shared root) scope.
+// ---------------------------------------------------------------------------------------------
+
+//@ func parseFunExpr
+//@   props C07
+//@   modifies maps glob:vardefs
+//@   requires live: live(ps)
+//@   requires block-parser-keeps-the-token-stream: forall p ParseState :: {pBlock(p)} live(p) ==> live(pBlock(p).E0) && samebuf(pBlock(p).E0, p)
+//@   requires block-parser-keeps-the-scope: forall p ParseState :: {pBlock(p)} pBlock(p).E0.scope == p.scope
+//@   panics may
+//@   ensures parameters-in-a-child-scope: exists sc Scope :: {scparent(sc)} scparent(sc) == ps.scope && sc != ps.scope && glob(vardefs) == params_log(old(glob(vardefs)), sc, Expr_ELambda_Value(result.E1).Params) && arg(pBlock, old(calls(pBlock))).scope == sc
+//@   ensures scope-restored: result.E0.scope == ps.scope
